@@ -112,6 +112,9 @@ func (v AVal) String() string {
 	case avNil:
 		return "nil"
 	case avPtr:
+		if v.Obj == nil {
+			return "&?"
+		}
 		if v.Field >= 0 {
 			return fmt.Sprintf("&obj%d.%d", v.Obj.ID, v.Field)
 		}
@@ -125,6 +128,9 @@ func (v AVal) String() string {
 		}
 		return "(" + strings.Join(p, ", ") + ")"
 	case avStruct:
+		if v.Obj == nil {
+			return "struct ?"
+		}
 		return fmt.Sprintf("struct obj%d", v.Obj.ID)
 	}
 	if v.Tag != "" {
@@ -144,6 +150,35 @@ type AObj struct {
 	Len    int // number of known elements for slices/arrays (-1 unknown)
 	Site   ssa.Value
 	Extern bool // stands for memory not allocated on the path (receiver, parameters)
+	IsMap  bool
+	Map    map[string]AVal // entries of a map whose keys are all identifiable
+	Keys   map[string]AVal
+	Opaque bool // a map that received an unidentifiable key: contents unknown
+}
+
+// keyID: an identity for a map key: constants by value, unknowns by their tag.
+func keyID(k AVal) (string, bool) {
+	switch {
+	case k.isConst():
+		return "c:" + k.C.ExactString(), true
+	case k.Tag != "":
+		return "t:" + k.Tag, true
+	case k.Kind == avPtr:
+		return fmt.Sprintf("p:%d.%d", k.Obj.ID, k.Field), true
+	}
+	return "", false
+}
+
+func (o *AObj) mapSet(k, v AVal) {
+	id, ok := keyID(k)
+	if !ok {
+		o.Opaque = true
+		return
+	}
+	if o.Map == nil {
+		o.Map, o.Keys = map[string]AVal{}, map[string]AVal{}
+	}
+	o.Map[id], o.Keys[id] = v, k
 }
 
 type AEvent struct {
@@ -186,9 +221,18 @@ func (s *AState) fork() *AState {
 		t.globals[g] = o
 	}
 	for id, o := range s.heap {
-		c := &AObj{ID: o.ID, Type: o.Type, Fields: make(map[int]AVal, len(o.Fields)), Len: o.Len, Site: o.Site, Extern: o.Extern}
+		c := &AObj{ID: o.ID, Type: o.Type, Fields: make(map[int]AVal, len(o.Fields)), Len: o.Len, Site: o.Site, Extern: o.Extern, IsMap: o.IsMap, Opaque: o.Opaque}
 		for k, v := range o.Fields {
 			c.Fields[k] = v
+		}
+		if o.Map != nil {
+			c.Map, c.Keys = make(map[string]AVal, len(o.Map)), make(map[string]AVal, len(o.Keys))
+			for k, v := range o.Map {
+				c.Map[k] = v
+			}
+			for k, v := range o.Keys {
+				c.Keys[k] = v
+			}
 		}
 		t.heap[id] = c
 	}
@@ -425,7 +469,12 @@ blocks:
 			case *ssa.Panic:
 				st.Trace = append(st.Trace, AEvent{Kind: "panic", Site: x, Args: []AVal{fr.get(ai, st, x.X)}, Depth: st.depth})
 				return []AOutcome{{St: st, Panicked: true, At: x}}
-			case *ssa.RunDefers, *ssa.Defer, *ssa.Go, *ssa.Send, *ssa.MapUpdate:
+			case *ssa.MapUpdate:
+				m := fr.get(ai, st, x.Map)
+				if m.Kind == avPtr && m.Field < 0 && st.obj(m.Obj).IsMap {
+					st.obj(m.Obj).mapSet(fr.get(ai, st, x.Key), fr.get(ai, st, x.Value))
+				}
+			case *ssa.RunDefers, *ssa.Defer, *ssa.Go, *ssa.Send:
 				// not modelled
 			case *ssa.IndexAddr:
 				// a constant index beyond the known length of the indexed object: run-time panic
@@ -776,6 +825,7 @@ func (ai *AInterp) eval(fr *aFrame, st *AState, v ssa.Value) AVal {
 		return AVal{Kind: avPtr, Obj: o, Field: -1}
 	case *ssa.MakeMap:
 		o := st.newObj(x.Type(), x)
+		o.IsMap = true
 		return AVal{Kind: avPtr, Obj: o, Field: -1}
 	case *ssa.Slice:
 		a := fr.get(ai, st, x.X)
@@ -810,6 +860,19 @@ func (ai *AInterp) eval(fr *aFrame, st *AState, v ssa.Value) AVal {
 		}
 		return aUnknown(x)
 	case *ssa.Lookup:
+		// a map built on the path (or given by the client) whose keys are all identifiable
+		if mv := fr.get(ai, st, x.X); mv.Kind == avPtr && mv.Field < 0 && st.obj(mv.Obj).IsMap && !st.obj(mv.Obj).Opaque {
+			if id, ok := keyID(fr.get(ai, st, x.Index)); ok {
+				val, found := st.obj(mv.Obj).Map[id]
+				if !found {
+					val = zeroOf(x.X.Type().Underlying().(*types.Map).Elem())
+				}
+				if x.CommaOk {
+					return AVal{Kind: avTuple, Tup: []AVal{val, aBool(found)}}
+				}
+				return val
+			}
+		}
 		// a table known to the client (map[string]string) indexed by a constant
 		m := fr.get(ai, st, x.X)
 		if tab, ok := m.Any.(map[string]string); ok {
@@ -952,7 +1015,11 @@ func (ai *AInterp) builtin(st *AState, name string, args []AVal, site ssa.CallIn
 			return aInt(0)
 		}
 		if args[0].Kind == avPtr && args[0].Field < 0 {
-			if o := st.obj(args[0].Obj); o.Len >= 0 {
+			o := st.obj(args[0].Obj)
+			if o.IsMap && !o.Opaque {
+				return aInt(int64(len(o.Map)))
+			}
+			if o.Len >= 0 {
 				return aInt(int64(o.Len))
 			}
 		}
